@@ -263,6 +263,8 @@ package core
 //@   property C01,C07,C09
 //@   requires coreScanInv(core)
 //@   modifies anything
+// every error of the scanning phase - whichever call raised it - leaves with the live include stack attached (C07)
+//@   ensures[C07,@scan-error-traced] imp(result != nil, result.gTraced)
 //@ func (*JApiCore).scanProject loop 1
 //@   invariant coreScanInv(core) && core.scannersStack == old(core.scannersStack)
 
